@@ -122,6 +122,16 @@ def load_known_findings():
         return json.load(f).get("findings", [])
 
 
+def load_baseline(prop):
+    """names of the obligations discharged on the pinned (repaired) tree; committed, written only by
+    tools/update_baseline.py"""
+    p = os.path.join(VERIF, "baseline", "%s.json" % prop)
+    if not os.path.exists(p):
+        return set()
+    with open(p) as f:
+        return set(json.load(f)["discharged"])
+
+
 def write_replay(prop, name, payload):
     d = os.path.join(VERIF, "replays")
     os.makedirs(d, exist_ok=True)
@@ -221,6 +231,8 @@ def run_pyvc(cfg, rep, tier):
         obs = [e for n, e in by_name.items() if n.startswith(l + "[")]
         if not obs or any(e["status"] != "proved" for e in obs):
             rep.undecide("lemma %s is not fully proved but is used by %s" % (l, sorted(users)))
+    baseline = load_baseline(cfg.PROP)
+    rep.proved_names = sorted(n for n, e in by_name.items() if e["status"] == "proved")
     n_ob = len(by_name)
     n_proved = sum(1 for e in by_name.values() if e["status"] == "proved")
     # ---- refuted obligations: replay natively
@@ -248,7 +260,19 @@ def run_pyvc(cfg, rep, tier):
                 rp = write_replay(cfg.PROP, short, payload)
                 rep.violation("pyvc:" + short, "obligation refuted by the solver (%s); model %s does not fail natively" % (e["detail"], e["models"][:1]), rp + " no-failing-input-found")
         elif e["status"] == "unknown":
-            rep.undecide("%s: solver unknown (%s)" % (name, e["detail"]))
+            if name in baseline:
+                # discharged on the pinned tree, not discharged now: reported as a violation without a
+                # failing input (the solver gave no model); the replay file carries the solver's reason
+                short = name.split("/", 1)[1] if "/" in name else name
+                short = short.split("[")[0] + "/" + short.split("]/")[-1] if "]/" in short else short
+                payload = dict(property=cfg.PROP, obligation=name, harness="%s/%s" % e["key"], case=e["case"], replayed=False,
+                               solver_detail="obligation was discharged on the pinned tree and is now %s: %s" % (e["status"], e["detail"]),
+                               tree=repo_root(), how="./check %s --replay <this file>" % cfg.PROP)
+                rp = write_replay(cfg.PROP, short + "_regressed", payload)
+                rep.violation("pyvc:" + short + ":no-longer-discharged",
+                              "obligation %s was discharged on the pinned tree and is no longer (%s)" % (name, e["detail"]), rp + " no-failing-input-found")
+            else:
+                rep.undecide("%s: solver unknown (%s)" % (name, e["detail"]))
     # ---- native run-time contracts + interpreter cross-check
     rnd = random.Random(rep.seed)
     ntasks = []
@@ -397,6 +421,10 @@ def finish(cfg, rep):
     ev = dict(property_id=cfg.PROP, tier=rep.tier, seed=rep.seed, level=rep.level, coverage=cov,
               assumptions=list(getattr(cfg, "ASSUMPTIONS", [])) + rep.assumptions,
               wall_s=round(time.time() - rep.t0, 2), violations=len(seen))
+    if getattr(rep, "proved_names", None) is not None:
+        os.makedirs(os.path.join(VERIF, "scratch"), exist_ok=True)
+        with open(os.path.join(VERIF, "scratch", "proved_%s.json" % cfg.PROP), "w") as f:
+            json.dump(dict(property=cfg.PROP, tree=repo_root(), head=git_head(repo_root()), discharged=rep.proved_names), f)
     os.makedirs(os.path.join(VERIF, "evidence"), exist_ok=True)
     with open(os.path.join(VERIF, "evidence", "%s.json" % cfg.PROP), "w") as f:
         json.dump(ev, f, indent=1, default=str)
